@@ -61,13 +61,34 @@ fn do_parse(text: &str) -> Result<usize, String> {
     }
     let mut m = 0usize;
     let mut err2 = false;
-    for r in parse::parse_ledger::<syntax::plain::Ident>(&opts, text) {
+    // this caller does NOT stop at the first error (a caller that collects every item, or skips bad entries): the
+    // iterator must still come to an end - every Ok item consumes text, so `len + 2` items are an upper bound
+    let cap = text.len() + 2;
+    let mut items = 0usize;
+    let mut it = parse::parse_ledger::<syntax::plain::Ident>(&opts, text);
+    loop {
+        let r = match it.next() {
+            None => break,
+            Some(r) => r,
+        };
+        items += 1;
+        if items > cap {
+            panic!(
+                "the parse_ledger iterator does not come to an end: {} items from a text of {} bytes ({} entries before the first error)",
+                items,
+                text.len(),
+                m
+            );
+        }
         match r {
-            Ok(_) => m += 1,
+            Ok(_) => {
+                if !err2 {
+                    m += 1
+                }
+            }
             Err(e) => {
                 let _ = e.to_string();
                 err2 = true;
-                break;
             }
         }
     }
